@@ -1,2 +1,410 @@
+"""C10 rules R10.raw / R10.card — hand-written insertion sites and overrides of generated methods."""
+
+from __future__ import annotations
+
+import ast
+import json
+import os
+
+from sa.contexts import ContextEnumerator
+from sa.pysrc import dotted
+from sa.report import VERIF, AnalysisError
+from sa.types import FCtx, Types, walk_own
+from sa.xmlchemy_model import choice_prop
+
+RAW_METHODS = ("append", "insert", "addprevious", "addnext", "extend", "insert_element_before", "replace")
+
+
+def _hints():
+    p = os.path.join(VERIF, "hints.json")
+    if os.path.exists(p):
+        with open(p) as f:
+            return json.load(f)
+    return {}
+
+
+def elem_classes(T, M, t):
+    """(classes, has_unknown_lxml) of a type."""
+    cls, unk = [], False
+    for a in t:
+        if a[0] == "inst" and M.is_oxml_class(a[1]):
+            if a[1].name == "BaseOxmlElement":
+                unk = True
+            else:
+                cls.append(a[1])
+        elif a[0] == "lxml":
+            unk = True
+    return cls, unk
+
+
+def tags_of_classes(prog, M, classes):
+    tags = []
+    for c in classes:
+        ts = M.tags_for_class(c)
+        if not ts:
+            # abstract base: tags of registered subclasses
+            for s in prog.subclasses(c):
+                ts = ts + M.tags_for_class(s)
+        for t in ts:
+            if t not in tags:
+                tags.append(t)
+    return tags
+
+
+def collect_sites(prog, M, T):
+    sites = []
+    for f in prog.all_functions():
+        if f.module.name == "pptx.oxml.xmlchemy":
+            continue
+        fc = FCtx(f)
+        for n in walk_own(f.node):
+            if isinstance(n, ast.Call) and isinstance(n.func, ast.Attribute) and n.func.attr in RAW_METHODS:
+                rt = T.expr(n.func.value, fc)
+                cls, unk = elem_classes(T, M, rt)
+                if not cls and not unk:
+                    continue
+                sites.append((f, fc, n, rt, cls, unk))
+    return sites
+
+
+def _positions_ok(S, tq, child, index_fn, bound=2, need=None):
+    """Run index_fn(v) -> list of indices to test on every context; returns failing (v, idx, valid)."""
+    en = ContextEnumerator(S, tq, child)
+    fails = []
+    n = 0
+    seen = set()
+    seeds = [w for w in en.seeds(bound)] + [w for _, w in en.families()]
+    for w in seeds:
+        if need is not None and need not in w:
+            continue
+        for v in en.completions(tuple(w)):
+            if v in seen:
+                continue
+            seen.add(v)
+            valid = en.valid_positions(v)
+            if not valid:
+                continue
+            for idx in index_fn(v):
+                n += 1
+                if idx not in valid:
+                    fails.append((v, idx, valid))
+    return n, fails
+
+
 def run(ctx, prog, S, M, explicit):
-    pass
+    from checks.c10 import complex_types_for
+
+    T = Types(prog, M)
+    hints = _hints().get("C10", {})
+    ctx.rule("R10.raw", "hand-written tree insertions (append/insert/addprevious/addnext/insert_element_before) "
+                        "place the child at a schema-valid position in every context")
+    sites = collect_sites(prog, M, T)
+    ctx.count("raw_sites", len(sites))
+    bound = 2
+    fresh_eval = None
+    for f, fc, call, rt, rcls, runk in sites:
+        meth = call.func.attr
+        where = "%s:%d" % (f.file, call.lineno)
+        skey = "%s@%s.%s" % (f.qualname, ast.unparse(call.func.value), meth)
+        if meth in ("extend", "replace"):
+            ctx.error(where, "raw tree mutation .%s() on an element is not modelled" % meth)
+            continue
+        argi = 1 if meth == "insert" else 0
+        if len(call.args) <= argi:
+            continue
+        arg = call.args[argi]
+        at = T.expr(arg, fc)
+        acls, aunk = elem_classes(T, M, at)
+        h = hints.get(skey, {})
+        child_tags = h.get("child") or tags_of_classes(prog, M, acls)
+        if not child_tags:
+            ctx.error(where, "cannot infer the tag of the inserted element `%s` in %s (add a hint)" % (
+                ast.unparse(arg), skey))
+            continue
+        if meth in ("addprevious", "addnext"):
+            sib_tags = h.get("sibling") or tags_of_classes(prog, M, rcls)
+            if not sib_tags:
+                ctx.error(where, "cannot infer the tag of the sibling `%s` in %s (add a hint)" % (
+                    ast.unparse(call.func.value), skey))
+                continue
+            nob = 0
+            fails_all = []
+            for st in sib_tags:
+                sq = prog.qn(st)
+                for ct in child_tags:
+                    cq = prog.qn(ct)
+                    for tq in sorted(S.elem_parents.get(sq, ())):
+                        if cq not in S.alphabet(tq):
+                            continue
+                        if st != ct and not _same_slot(S, tq, sq, cq):
+                            # sibling and child live in different slots of this parent type: only relevant
+                            # if the class is really used there; report as failing context
+                            pass
+
+                        def idxs(v, sq=sq):
+                            out = []
+                            for i, x in enumerate(v):
+                                if x == sq:
+                                    out.append(i if meth == "addprevious" else i + 1)
+                            return out
+
+                        n, fails = _positions_ok(S, tq, cq, idxs, bound, need=sq)
+                        nob += n
+                        for v, idx, valid in fails:
+                            fails_all.append((S.tname(tq), st, ct, v, idx, valid))
+            if nob == 0:
+                ctx.error(where, "%s: no schema type has both %s and %s as children" % (skey, sib_tags, child_tags))
+                continue
+            if fails_all:
+                tn, st, ct, v, idx, valid = min(fails_all, key=lambda x: len(x[3]))
+                ctx.violation("R10.raw", skey, "%s(%s) relative to %s is not schema-valid in %s" % (meth, ct, st, tn),
+                              file=f.file, line=call.lineno,
+                              witness="context [%s] index %d valid %s" % (", ".join(S.pfx(x) for x in v), idx, valid))
+            else:
+                ctx.ok("R10.raw", skey, sample={"site": where, "op": meth, "sibling": sib_tags, "child": child_tags,
+                                                "positions_checked": nob})
+            continue
+        # parent-relative operations
+        parent_tags = h.get("parent") or tags_of_classes(prog, M, rcls)
+        if not parent_tags:
+            ctx.error(where, "cannot infer the parent element class of `%s` in %s (add a hint)" % (
+                ast.unparse(call.func.value), skey))
+            continue
+        if meth == "insert_element_before":
+            succ = []
+            okf = True
+            for a in call.args[1:]:
+                v = prog.const(a, f.module)
+                if isinstance(v, str):
+                    succ.append(prog.qn(v))
+                else:
+                    okf = False
+            if not okf:
+                ctx.error(where, "%s: successor tags are not literals" % skey)
+                continue
+            index_fn = None
+        elif meth == "append":
+            succ = []
+        elif meth == "insert":
+            iv = prog.const(call.args[0], f.module)
+            if iv != 0:
+                ctx.error(where, "%s: insert at a non-zero / computed index is not modelled" % skey)
+                continue
+            succ = None
+        nob = 0
+        fails_all = []
+        unconstrained = False
+        for pt in parent_tags:
+            for tq in complex_types_for(S, prog.qn(pt)):
+                sigma = S.alphabet(tq)
+                if S.has_any(tq) and not sigma:
+                    unconstrained = True
+                    continue
+                for ct in child_tags:
+                    cq = prog.qn(ct)
+                    if cq not in sigma:
+                        continue
+                    if succ is None:
+                        idxs = lambda v: [0]  # noqa: E731
+                    else:
+                        idxs = lambda v, succ=succ: [_first_index(v, succ, M.semantics)]  # noqa: E731
+                    n, fails = _positions_ok(S, tq, cq, idxs, bound)
+                    nob += n
+                    for v, idx, valid in fails:
+                        fails_all.append((S.tname(tq), pt, ct, v, idx, valid))
+        if nob == 0:
+            if unconstrained:
+                ctx.ok("R10.raw", skey, sample={"site": where, "op": meth, "parent": parent_tags,
+                                                "note": "parent content is xsd:any (unconstrained)"}, nontrivial=False)
+                continue
+            ctx.violation("R10.raw", skey, "%s is not a child of %s in any schema type" % (child_tags, parent_tags),
+                          file=f.file, line=call.lineno)
+            continue
+        if fails_all:
+            # a receiver that was created in this function from a template has exactly the template's children
+            fresh = _fresh_context(prog, M, T, f, fc, call, S)
+            if fresh is not None:
+                okf, why = fresh
+                if okf:
+                    ctx.ok("R10.raw", skey, sample={"site": where, "op": meth, "parent": parent_tags,
+                                                    "child": child_tags, "fresh_receiver": why})
+                    continue
+            tn, pt, ct, v, idx, valid = min(fails_all, key=lambda x: len(x[3]))
+            ctx.violation("R10.raw", skey,
+                          "%s of %s into %s ignores later siblings the schema allows (%s)" % (meth, ct, pt, tn),
+                          file=f.file, line=call.lineno,
+                          witness="context [%s] -> index %d, valid %s" % (", ".join(S.pfx(x) for x in v), idx, valid))
+        else:
+            ctx.ok("R10.raw", skey, sample={"site": where, "op": meth, "parent": parent_tags, "child": child_tags,
+                                            "positions_checked": nob})
+
+    # -- explicit overrides of generated inserters ---------------------------------------------
+    for cls, tag, tq, d, ct, fi in explicit:
+        ctx.error("%s:%d" % (fi.file, fi.line),
+                  "hand-written %s overrides the generated inserter; not modelled" % fi.qualname)
+
+    # -- R10.card ----------------------------------------------------------------------------------
+    ctx.rule("R10.card", "overrides of get_or_add_x test for presence before adding; choice-group removers cover "
+                         "exactly the declared members; choice members are mutually exclusive in the schema")
+    for c in M.oxml_classes():
+        for d in M.own_decls(c)[0]:
+            if d.kind == "ZeroOrOne":
+                fi = c.methods.get("get_or_add_" + d.prop)
+                if fi is not None:
+                    key = "%s.get_or_add_%s" % (c.name, d.prop)
+                    if _override_guarded(fi, d.prop):
+                        ctx.ok("R10.card", key, sample={"override": fi.fq, "guard": "presence test"})
+                    else:
+                        ctx.violation("R10.card", key, "override adds a child without testing that none is present",
+                                      file=fi.file, line=fi.line)
+            if d.kind == "ZeroOrOneChoice":
+                key = "%s.%s" % (c.name, d.prop)
+                fi = c.methods.get("_remove_" + d.prop)
+                if fi is not None:
+                    ctx.error("%s:%d" % (fi.file, fi.line), "hand-written group remover %s not modelled" % fi.qualname)
+                    continue
+                # members must be alternatives of one non-repeating choice in every schema type of the class
+                bad = None
+                n = 0
+                for t in M.tags_for_class(c) or tags_of_classes(prog, M, [c]):
+                    for tq in complex_types_for(S, prog.qn(t)):
+                        members = [prog.qn(x) for x in d.tags if prog.qn(x) in S.alphabet(tq)]
+                        if len(members) < 2:
+                            continue
+                        R = S.automaton(tq, relaxed=True)
+                        for i, a in enumerate(members):
+                            for b in members[i + 1:]:
+                                n += 1
+                                if R.accepts([a, b]) or R.accepts([b, a]):
+                                    bad = (S.tname(tq), S.pfx(a), S.pfx(b))
+                if bad:
+                    ctx.violation("R10.card", key, "choice group members %s and %s can co-occur in %s: "
+                                  "'change to' would wrongly remove a legitimate sibling" % (bad[1], bad[2], bad[0]),
+                                  file=c.file, line=d.line)
+                else:
+                    ctx.ok("R10.card", key, sample={"group": d.prop, "members": d.tags, "pairs_checked": n},
+                           nontrivial=n > 0)
+
+
+def _first_index(v, succ, semantics):
+    from sa.contexts import insertion_index
+
+    return insertion_index(v, succ, semantics)
+
+
+def _same_slot(S, tq, a, b):
+    R = S.automaton(tq, relaxed=True)
+    return R.accepts([a, b]) and R.accepts([b, a])
+
+
+def _override_guarded(fi, prop):
+    """Every adding call in the override is dominated by an `is None` test on the child."""
+    adds = []
+    for n in ast.walk(fi.node):
+        if isinstance(n, ast.Call) and isinstance(n.func, ast.Attribute) and (
+                n.func.attr in ("_add_" + prop, "_insert_" + prop, "append", "insert", "insert_element_before")):
+            adds.append(n)
+    if not adds:
+        return True
+    guarded = set()
+    for n in ast.walk(fi.node):
+        if isinstance(n, ast.If):
+            t = n.test
+            if isinstance(t, ast.Compare) and len(t.ops) == 1 and isinstance(t.ops[0], ast.Is) and \
+                    isinstance(t.comparators[0], ast.Constant) and t.comparators[0].value is None:
+                for st in n.body:
+                    for c in ast.walk(st):
+                        guarded.add(id(c))
+            if isinstance(t, ast.Compare) and len(t.ops) == 1 and isinstance(t.ops[0], ast.IsNot) and \
+                    isinstance(t.comparators[0], ast.Constant) and t.comparators[0].value is None:
+                # if x is not None: return x ; <add>
+                if any(isinstance(s, ast.Return) for s in n.body):
+                    body = fi.node.body
+                    if n in body:
+                        for st in body[body.index(n) + 1:]:
+                            for c in ast.walk(st):
+                                guarded.add(id(c))
+                for st in n.orelse:
+                    for c in ast.walk(st):
+                        guarded.add(id(c))
+    return all(id(a) in guarded for a in adds)
+
+
+def _fresh_context(prog, M, T, f, fc, call, S):
+    """If the receiver is a local created in this function from a template (parse_xml / OxmlElement /
+    a template factory), decide the append on the template's exact child language.
+    Returns (ok, description) or None when the receiver is not fresh."""
+    from sa.strabs import S as AS
+    from sa.strabs import StrEval
+    from sa.xmlskel import child_regex, included, skeleton
+
+    recv = call.func.value
+    if not isinstance(recv, ast.Name):
+        return None
+    # find the single assignment of the receiver in this function
+    assigns = [n for n in walk_own(f.node) if isinstance(n, ast.Assign) and len(n.targets) == 1
+               and isinstance(n.targets[0], ast.Name) and n.targets[0].id == recv.id]
+    if len(assigns) != 1:
+        return None
+    val = assigns[0].value
+    # no other root-level mutation of the receiver between its creation and this call
+    for n in walk_own(f.node):
+        if isinstance(n, ast.Call) and n is not call and isinstance(n.func, ast.Attribute) \
+                and isinstance(n.func.value, ast.Name) and n.func.value.id == recv.id:
+            a = n.func.attr
+            if a.startswith(("get_or_add_", "_add_", "_insert_", "add_", "get_or_change_to_", "_remove_")) \
+                    or a in RAW_METHODS + ("remove", "clear"):
+                return None
+    ev = StrEval(prog, T)
+    v = ev.eval(val, fc, {})
+    tmpl = None
+    if isinstance(v, tuple) and v and v[0] == "parsed" and isinstance(v[1], AS):
+        tmpl = v[1]
+    elif isinstance(val, ast.Call) and dotted(val.func) == "OxmlElement":
+        tag = prog.const(val.args[0], f.module) if val.args else None
+        if isinstance(tag, str):
+            # empty element: context is empty
+            argt = T.expr(call.args[0], fc)
+            from checks.c10_sites import elem_classes, tags_of_classes  # noqa: F401
+
+            return _decide_fresh(prog, M, S, tag, [], call, T, fc, "OxmlElement(%r) has no children" % tag)
+    if tmpl is None:
+        return None
+    if ev.unknown:
+        return None
+    sk = skeleton(tmpl, prog.nsmap)
+    if len(sk.roots) != 1:
+        return None
+    root = sk.roots[0]
+    seq = child_regex(root)
+    return _decide_fresh(prog, M, S, S.pfx(root.tag), seq, call, T, fc, "template root %s" % S.pfx(root.tag))
+
+
+def _decide_fresh(prog, M, S, ptag, seq, call, T, fc, why):
+    from checks.c10 import complex_types_for
+    from sa.xmlskel import included
+
+    argi = 1 if call.func.attr == "insert" else 0
+    at = T.expr(call.args[argi], fc)
+    acls, _ = elem_classes(T, M, at)
+    ctags = tags_of_classes(prog, M, acls)
+    if not ctags:
+        return None
+    okall = True
+    n = 0
+    for tq in complex_types_for(S, prog.qn(ptag)):
+        for ct in ctags:
+            cq = prog.qn(ct)
+            if cq not in S.alphabet(tq):
+                continue
+            n += 1
+            # intervening insertions between creation and this call may add children through schema-
+            # positioned inserters only; the template's own children followed by the appended child
+            # must be a valid word when the remaining required children are optional
+            A = S.automaton(tq, relaxed=True)
+            ok, cex = included(list(seq) + [("sym", cq, None)], A)
+            if not ok:
+                okall = False
+    if n == 0:
+        return None
+    return (okall, why)
